@@ -16,26 +16,24 @@ theorem remDue_ok (st : State) (j : J) (s : Nat) (hp : PipesRel st j) (hpi : Pip
   unfold remDue
   simp only
   split
+  · rename_i i q heq
+    exfalso
+    have hm := List.mem_of_find?_eq_some heq
+    have hpred := List.find?_some heq
+    simp only [Bool.and_eq_true, Bool.not_eq_true', beq_iff_eq] at hpred
+    rw [hp] at hm
+    rcases List.mem_map.mp hm with ⟨p, hpm, hpe⟩
+    simp only [Prod.mk.injEq] at hpe
+    obtain ⟨_, rfl⟩ := hpe
+    obtain ⟨⟨⟨⟨⟨⟨h1, _⟩, h2⟩, _⟩, h3⟩, h4⟩, _⟩ := hpred
+    have hr : p.reaped = true := hall p hpm h1
+    have hl : p.last ≠ 0 := by simpa [jp] using h2
+    have hrem : PEv.rem ∉ p.evs := by simpa [jp] using h3
+    have hw : (p.reaped && !p.remReg) = false := h4
+    rw [hr] at hw
+    have hreg : p.remReg = true := by simpa using hw
+    exact hrem ((hpi p hpm).rem_due hr hl hreg)
   · rfl
-  · split
-    · rename_i i q heq
-      exfalso
-      have hm := List.mem_of_find?_eq_some heq
-      have hpred := List.find?_some heq
-      simp only [Bool.and_eq_true, Bool.not_eq_true', beq_iff_eq] at hpred
-      rw [hp] at hm
-      rcases List.mem_map.mp hm with ⟨p, hpm, hpe⟩
-      simp only [Prod.mk.injEq] at hpe
-      obtain ⟨_, rfl⟩ := hpe
-      obtain ⟨⟨⟨h1, h2⟩, h3⟩, h4⟩ := hpred
-      have hr : p.reaped = true := hall p hpm h1
-      have hpost : PEv.post ∈ p.evs := by simpa [jp] using h2
-      have hrem : PEv.rem ∉ p.evs := by simpa [jp] using h3
-      have hw : (p.reaped && !p.remReg) = false := h4
-      rw [hr] at hw
-      have hreg : p.remReg = true := by simpa using hw
-      exact hrem ((hpi p hpm).rem_due hr hpost hreg)
-    · rfl
 
 /-- judge: every record mapped; model: nothing -/
 theorem EpsRel.judgeAll {S S' : SelE} {st : State} {j j' : J} (h : EpsRel S st j) (u : Nat → JEp → JEp)
@@ -428,10 +426,10 @@ theorem sim_close_open (st : State) (j : J) (s : Nat) (orc : List Nat) (hr : Rel
     have := hm.2
     simp only [Bool.and_eq_true] at this
     exact this.1
-  obtain ⟨m1, sj1⟩ := closeEps_sim (selSock s) (.close s) L st jpre hmpre hcbpre hcur
+  obtain ⟨m1, sj1⟩ := closeEps_sim (selSock s) (.close s) rfl L st jpre hmpre hcbpre hcur
   have hcb1 : CB ((closeEps st L).2.foldl (onOut (.close s)) jpre) := by
     intro s' x hx; rw [sj1.2.1] at hx; exact hcbpre s' x hx
-  obtain ⟨m2, sj2⟩ := killPipes_sim (selSock s) (.close s) (liveOf st1 fun p => p.sock == s) st1 _ m1 hcb1
+  obtain ⟨m2, sj2⟩ := killPipes_sim (selSock s) (.close s) rfl (liveOf st1 fun p => p.sock == s) st1 _ m1 hcb1
   have hsame : SameAio st st2 := (closeEps_same st L).trans (killPipes_same st1 _)
   have sj12 := sj1.trans sj2
   -- completions
